@@ -383,6 +383,205 @@ def ob_solve_large():
     return Verdict(DISCHARGED, backend="native float run (run-time contract)", detail=str(rec))
 
 
+def _law(dim, name):
+    """every elastic law class, material axes oblique to the coordinate axes (unnormalised where the constructor accepts it)."""
+    from EasyFEA import Models
+    E = Models.Elastic
+    ax1, ax2 = np.array([2.0, 1.0, 0.5]), np.array([-1.0, 2.0, 0.0])      # orthogonal, not unit
+    if dim == 2:
+        ax1, ax2 = np.array([2.0, 1.0, 0.0]), np.array([-1.0, 2.0, 0.0])
+    kind, _, opt = name.partition(".")
+    ps = opt != "pe"
+    if kind == "iso":
+        return E.Isotropic(dim, E=3.0, v=0.25, planeStress=ps, thickness=1.3)
+    if kind == "ti":
+        return E.TransverselyIsotropic(dim, El=11.0, Et=3.0, Gl=1.7, vl=0.26, vt=0.31, axis_l=ax1, axis_t=ax2, planeStress=ps, thickness=1.3)
+    if kind == "ortho":
+        return E.Orthotropic(dim, E1=11.0, E2=5.0, E3=3.0, G23=1.1, G13=1.4, G12=1.9, v23=0.2, v13=0.24, v12=0.3, axis_1=ax1, axis_2=ax2, planeStress=ps, thickness=1.3)
+    if kind == "aniso":
+        n = 3 if dim == 2 else 6
+        rng = np.random.default_rng(11)
+        A = rng.normal(size=(n, n))
+        C = A @ A.T + n * np.eye(n)
+        return E.Anisotropic(dim, C, useVoigtNotation=(opt == "voigt"), axis1=ax1, axis2=ax2, thickness=1.3)
+    raise Unsupported(name)
+
+
+def _gmsh_mesh(kind):
+    from EasyFEA.Geoms import Domain, Point, Circle, Points
+    from EasyFEA import ElemType
+    if kind == "QUAD8+TRI6":
+        return Domain(Point(), Point(10, 6), 2.5).Mesh_2D([], ElemType.QUAD8)
+    if kind == "QUAD4+TRI3":
+        return Domain(Point(), Point(10, 6), 2.5).Mesh_2D([], ElemType.QUAD4)     # at this size the recombination leaves 4 triangles
+    if kind.startswith("poly."):
+        et = kind.split(".")[1]
+        return Points([Point(0, 0), Point(7, 1), Point(9, 5), Point(4, 8), Point(-1, 4)], 2.0).Mesh_2D([], ElemType[et])
+    if kind.startswith("hole."):
+        et = kind.split(".")[1]
+        return Domain(Point(), Point(10, 6), 1.6).Mesh_2D([Circle(Point(5, 3), 2.0, 0.9)], ElemType[et])
+    if kind.startswith("ext."):
+        et = kind.split(".")[1]
+        return Points([Point(0, 0), Point(5, 1), Point(6, 4), Point(1, 5)], 2.2).Mesh_Extrude([], [0, 0, 3], [2], ElemType[et])
+    raise Unsupported(kind)
+
+
+def _renumbered(mesh, perm):
+    """same mesh with node k renamed perm[k] (only the groups of the main dimension are kept: boundary nodes are carried by the caller)."""
+    from EasyFEA.FEM._mesh import Mesh
+    from EasyFEA.FEM._group_elem import GroupElemFactory
+    co = np.asarray(mesh.coord)
+    new = np.empty_like(co)
+    new[perm] = co
+    groups = {}
+    for g in mesh.Get_list_groupElem(mesh.dim):
+        groups[g.elemType] = GroupElemFactory.Create(g.elemType, perm[np.asarray(g.connect)], new)
+    return Mesh(groups)
+
+
+def ob_solve_gmsh(kind, law, renumber=False, physics="elastic"):
+    """patch test on an unstructured (possibly mixed-type) gmsh mesh of a polygonal / polyhedral domain, mapped by an affine map,
+    optionally renumbered at random; any elastic law class."""
+    from EasyFEA import Models, Simulations
+    mesh = _gmsh_mesh(kind)
+    dim = mesh.dim
+    rng = np.random.default_rng(17 + len(kind) + len(law))
+    bnd = np.unique(np.concatenate([np.asarray(g.nodes) for g in mesh.Get_list_groupElem(dim - 1)]))
+    types = sorted(g.elemType.name for g in mesh.Get_list_groupElem(dim))
+    if "+" in kind and len(types) < 2:
+        raise Unsupported(f"{kind}: gmsh produced a single element type {types}")
+    A = np.eye(3)
+    A[:dim, :dim] = np.array([[1.2, 0.3, 0.1], [-0.2, 0.8, 0.2], [0.1, -0.1, 1.5]])[:dim, :dim]
+    co = np.asarray(mesh.coord) @ A.T + np.array([0.3, -0.2, 0.5 if dim == 3 else 0.0])
+    mesh.coord = co
+    Nn = mesh.Nn
+    if renumber:
+        perm = rng.permutation(Nn)
+        mesh = _renumbered(mesh, perm)
+        bnd = perm[bnd]
+        co = np.asarray(mesh.coord)
+    interior = np.setdiff1d(np.arange(Nn), bnd)
+    if interior.size < 3:
+        raise Unsupported(f"{kind}: only {interior.size} interior nodes")
+    rec = dict(kind=kind, law=law, types=types, Nn=int(Nn), interior=int(interior.size), renumbered=bool(renumber))
+    if physics == "thermal":
+        simu = Simulations.Thermal(mesh, Models.Thermal(k=1.7, c=1.0, thickness=1.3) if dim == 2 else Models.Thermal(k=1.7, c=1.0))
+        G = rng.normal(size=dim)
+        exact = co[:, :dim] @ G + 0.37
+        simu.add_dirichlet(bnd, [exact[bnd]], ["t"])
+        u = np.asarray(simu.Solve())
+        err = float(np.abs(u - exact).max() / np.abs(exact).max())
+        rec.update(rel_err=err)
+        if not err < 1e-9:
+            raise Refuted(f"thermal patch test on {kind}{' renumbered' if renumber else ''}: {rec}", cex=rec, signature=f"gmsh:{kind}:thermal", replay=dict(confirmed=True, **rec))
+        return Verdict(DISCHARGED, backend="native float run (run-time contract, 1e-9)", detail=str(rec))
+    mat = _law(dim, law)
+    simu = Simulations.Elastic(mesh, mat)
+    G = rng.normal(size=(dim, dim))
+    c0 = rng.normal(size=dim)
+    exact = co[:, :dim] @ G.T + c0
+    simu.add_dirichlet(bnd, [exact[bnd, d] for d in range(dim)], ["x", "y", "z"][:dim])
+    u = np.asarray(simu.Solve()).reshape(Nn, dim)
+    err = float(np.abs(u - exact).max() / np.abs(exact).max())
+    S = (G + G.T) / 2
+    r2 = np.sqrt(2)
+    km = np.array([S[0, 0], S[1, 1], r2 * S[0, 1]]) if dim == 2 else np.array([S[0, 0], S[1, 1], S[2, 2], r2 * S[1, 2], r2 * S[0, 2], r2 * S[0, 1]])
+    unkm = np.array([1, 1, 1 / r2]) if dim == 2 else np.array([1, 1, 1, 1 / r2, 1 / r2, 1 / r2])
+    C = np.asarray(mat.C)
+    strain = np.asarray(simu.Result("Strain", nodeValues=False))
+    stress = np.asarray(simu.Result("Stress", nodeValues=False))
+    es = float(np.abs(strain.reshape(-1, km.size) - km * unkm).max() / np.abs(km).max())
+    ess = float(np.abs(stress.reshape(-1, km.size) - (C @ km) * unkm).max() / np.abs(C @ km).max())
+    meas = mesh.area * 1.3 if dim == 2 else mesh.volume
+    W = float(simu.Result("Wdef"))
+    Wref = 0.5 * km @ C @ km * meas
+    ew = abs(W - Wref) / abs(Wref)
+    rec.update(rel_err=err, strain_err=es, stress_err=ess, wdef_err=float(ew))
+    if not (err < 1e-9 and es < 1e-9 and ess < 1e-9 and ew < 1e-9 and W > 0):
+        raise Refuted(f"elastic patch test on {kind}, law {law}{', renumbered' if renumber else ''}: {rec}", cex=rec, signature=f"gmsh:{kind}:{law}", replay=dict(confirmed=True, **rec))
+    return Verdict(DISCHARGED, backend="native float run (run-time contract, 1e-9)", detail=str(rec))
+
+
+def ob_beam_patch(dim, timo, et, inclined, nL=4):
+    """beam patch test: constant axial strain a and constant curvature vector kappa (bending and, in 3-D, torsion rate), zero shear:
+    theta(s) = theta0 + kappa s,  u(s) = u0 + a s t + (theta0 s + kappa s^2 / 2) x t,   prescribed at the two ends."""
+    import contextlib, io
+    from EasyFEA import Models, Simulations, Mesher, ElemType
+    from EasyFEA.Geoms import Domain, Point, Line
+    with contextlib.redirect_stdout(io.StringIO()):
+        sect = Mesher().Mesh_2D(Domain(Point(), Point(0.3, 0.5)), elemType=ElemType.QUAD4)
+        L = 3.0
+        if dim == 1 or not inclined:
+            p2 = np.array([L, 0, 0])
+        elif dim == 2:
+            p2 = np.array([L * 0.6, L * 0.8, 0])
+        else:
+            p2 = np.array([L / 3, 2 * L / 3, 2 * L / 3])
+        line = Line(Point(0, 0, 0), Point(*p2), L / nL)
+        E = 210e3
+        beam = Models.Beam.Isotropic(dim, line, sect, E, v=0.3)
+        mesh = Mesher().Mesh_Beams([beam], elemType=ElemType[et])
+        simu = Simulations.Beam(mesh, beam, useTimoshenko=timo)
+    co = np.asarray(mesh.coord)
+    t = p2 / np.linalg.norm(p2)
+    s = co @ t
+    rng = np.random.default_rng(3 + dim)
+    a = 1e-3 * rng.normal()
+    u0, th0, kap = 1e-2 * rng.normal(size=3), 1e-2 * rng.normal(size=3), 1e-2 * rng.normal(size=3)
+    if dim == 2:
+        th0[:2] = 0; kap[:2] = 0; u0[2] = 0
+    if dim == 1:
+        th0[:] = 0; kap[:] = 0; u0[1:] = 0
+    th = th0[None, :] + s[:, None] * kap[None, :]
+    u = u0[None, :] + a * s[:, None] * t[None, :] + np.cross(th0[None, :] * s[:, None] + kap[None, :] * (s ** 2 / 2)[:, None], t[None, :])
+    if dim == 1:
+        exact, names = u[:, :1], ["x"]
+    elif dim == 2:
+        exact, names = np.c_[u[:, :2], th[:, 2]], ["x", "y", "rz"]
+    else:
+        exact, names = np.c_[u, th], ["x", "y", "z", "rx", "ry", "rz"]
+    ends = np.array([int(np.argmin(s)), int(np.argmax(s))])
+    if mesh.Nn - 2 < 1:
+        raise Unsupported("no interior node")
+    simu.add_dirichlet(ends, [exact[ends, k] for k in range(len(names))], names)
+    sol = np.asarray(simu.Solve()).reshape(mesh.Nn, -1)
+    err = float(np.abs(sol - exact).max() / np.abs(exact).max())
+    rec = dict(dim=dim, timoshenko=timo, elemType=et, inclined=inclined, Nn=int(mesh.Nn), rel_err=err)
+    bad = not err < 1e-9
+
+    def rng_of(name):
+        v = np.asarray(simu.Result(name, nodeValues=False), dtype=float)
+        return v
+
+    def const(name, want, scale):
+        nonlocal bad
+        v = rng_of(name)
+        e = float(np.abs(v - want).max() / scale)
+        rec[name] = e
+        if not e < 1e-8:
+            bad = True
+    const("ux'", a, abs(a))
+    A = 0.3 * 0.5
+    const("N", E * A * a, abs(E * A * a))
+    if dim >= 2:
+        kt = float(kap @ t)
+        kn = float(np.sqrt(max(kap @ kap - kt ** 2, 0.0)))
+        if dim == 2:
+            const("rz'", kap[2], abs(kap[2]))
+            const("Ty", 0.0, abs(E * A * a))
+        else:
+            const("rx'", kt, np.linalg.norm(kap))
+            bend = np.sqrt(rng_of("ry'") ** 2 + rng_of("rz'") ** 2)
+            e = float(np.abs(bend - kn).max() / np.linalg.norm(kap))
+            rec["|(ry',rz')|"] = e
+            bad = bad or not e < 1e-8
+            const("Ty", 0.0, abs(E * A * a))
+            const("Tz", 0.0, abs(E * A * a))
+    if bad:
+        raise Refuted(f"beam patch test (constant axial strain and curvature) fails: {rec}", cex=rec, signature=f"beam:{dim}:{timo}:{et}:{inclined}", replay=dict(confirmed=True, **rec))
+    return Verdict(DISCHARGED, backend="native float run (run-time contract, 1e-9 / 1e-8)", detail=str(rec))
+
+
 ELASTIC_QUICK = ["TRI3", "TRI6", "QUAD4", "QUAD8", "TETRA4", "HEXA8", "PRISM6"]
 ELASTIC_THOROUGH = ["TRI10", "QUAD9", "TETRA10", "PRISM15"]
 
@@ -424,6 +623,29 @@ def build(tier, seed):
             obs.append(Ob(f"C01.solve.{et}.elastic.mirrored", ob_solve, (et, "elastic", True), "X", ("EasyFEA/FEM/_group_elem.py::_GroupElem.Get_jacobian_e_pg", "EasyFEA/Simulations/_elastic.py::Elastic"),
                           bound="reflected star patch (every element negatively oriented), one random linear field, floats",
                           clause="same on the mirror image: linear field, constant Strain/Stress and a POSITIVE Wdef (1e-9)", timeout=300))
+    GM = "EasyFEA/Models/Elastic/_laws.py"
+    cases = [("poly.TRI3", "iso.ps", False), ("poly.TRI6", "iso.pe", True), ("poly.QUAD4", "ti.ps", True), ("poly.QUAD8", "ti.pe", False), ("hole.TRI10", "ortho.ps", False),
+             ("hole.QUAD9", "ortho.pe", True), ("hole.TRI3", "aniso.km", True), ("poly.TRI6", "aniso.voigt", False), ("QUAD8+TRI6", "ortho.ps", False), ("QUAD8+TRI6", "iso.pe", True),
+             ("QUAD4+TRI3", "ti.ps", True), ("QUAD4+TRI3", "aniso.km", False), ("ext.TETRA4", "iso", True), ("ext.TETRA10", "ti", False), ("ext.HEXA8", "ortho", True),
+             ("ext.PRISM6", "aniso.km", False), ("ext.PRISM15", "aniso.voigt", True), ("ext.HEXA20", "ti", True)]
+    if tier == "thorough":
+        cases += [(k, l, not r) for k, l, r in cases] + [("hole.TRI15", "ti.ps", True), ("ext.HEXA27", "ortho", False), ("ext.PRISM18", "iso", True), ("poly.QUAD9", "aniso.km", True)]
+    for kind, law, ren in cases:
+        obs.append(Ob(f"C01.gmsh.{kind}.{law}{'.renumbered' if ren else ''}", ob_solve_gmsh, (kind, law, ren), "X",
+                      (f"{GM}::{ {'iso': 'Isotropic', 'ti': 'TransverselyIsotropic', 'ortho': 'Orthotropic', 'aniso': 'Anisotropic'}[law.split('.')[0]] }", "EasyFEA/Simulations/_elastic.py::Elastic", "EasyFEA/Simulations/_simu.py::_Simu.Solve"),
+                      bound="one unstructured gmsh mesh (polygon / plate with hole / extruded quadrilateral; mixed types where named) under one affine map, one random linear field, oblique unnormalised material axes, floats",
+                      clause="Solve() returns the linear field at every interior node; Strain / Stress / Wdef are the constants of the field (1e-9), for this law class, on the affine image, under random renumbering", timeout=600))
+    for kind, ren in (("QUAD8+TRI6", True), ("poly.TRI3", True), ("ext.PRISM6", True), ("QUAD4+TRI3", False)):
+        obs.append(Ob(f"C01.gmsh.{kind}.thermal{'.renumbered' if ren else ''}", ob_solve_gmsh, (kind, "-", ren, "thermal"), "X", ("EasyFEA/Simulations/_thermal.py::Thermal", "EasyFEA/Simulations/_simu.py::_Simu.Solve"),
+                      bound="one unstructured gmsh mesh under one affine map, one random linear field, floats", clause="Solve() returns the linear temperature at every interior node (1e-9)", timeout=600))
+    for dim in (1, 2, 3):
+        for timo in (False, True):
+            for et in ("SEG2", "SEG3") + (("SEG4", "SEG5") if tier == "thorough" else ()):
+                for inclined in ((False, True) if dim > 1 else (False,)):
+                    obs.append(Ob(f"C01.beam.{dim}d.{'timoshenko' if timo else 'bernoulli'}.{et}{'.inclined' if inclined else ''}", ob_beam_patch, (dim, timo, et, inclined), "X",
+                                  ("EasyFEA/Simulations/_beam.py::Beam.Construct_local_matrix_system", "EasyFEA/FEM/Elems/_beam.py::_Timoshenko.Get_beam_B_e_pg" if timo else "EasyFEA/FEM/Elems/_beam.py::_Euler_Bernoulli.Get_beam_B_e_pg"),
+                                  bound="one 4-element beam, one random state (axial strain, curvature vector, rigid part), floats",
+                                  clause="constant axial strain / curvature prescribed at the ends is returned at every interior node; ux', curvatures, N are the constants, shear forces vanish", timeout=300))
     obs.append(Ob("C01.solve.large.TRI3.elastic", ob_solve_large, (), "X", ("EasyFEA/Simulations/_simu.py::_Simu.Assembly", "EasyFEA/Simulations/_simu.py::_Simu.Solve"),
                   bound="one structured 154x154-node TRI3 mesh (47432 dofs > 46340), one linear field, floats",
                   clause="interior residual of the linear field vanishes and Solve() reproduces it on a system with more than 2^31 matrix positions", timeout=600))
